@@ -132,3 +132,11 @@ Theorem generated_formulas_total_jcd :
   forall m t q, is_jcd m = true -> env_t t = true ->
   formulas_ok {| fm := m; ft := PFloat t; fq := q |} size_bound.
 Proof. exact formulas_ok_jcd. Qed.
+
+(* ---- tie: the per-chunk functions generated from the source (Gen/JoinGen.v, regenerated every
+   run) produce, up to a permutation, exactly the rows of the pairwise model + projection *)
+From SSJ Require Import JoinGen SplitRefineBase SplitRefineOverlapFilter SplitRefineOvc SplitRefineFilterBase SplitRefineFilterSize SplitRefineFilterPrefix SplitRefineFilterPosition SplitRefineFilters SplitRefineEd SplitRefineProj SplitRefineProjAll SplitRefineOvcArith.
+Theorem generated_overlap_coefficient_split_refines_model :
+  ltac:(let t := type of overlap_coefficient_join_split_rows_refines_proj in exact t).
+Proof. exact overlap_coefficient_join_split_rows_refines_proj. Qed.
+Print Assumptions generated_overlap_coefficient_split_refines_model.
